@@ -6,7 +6,12 @@ K : Inference.ll / ll_per_bin / ll_multinom / ll_multinom_per_bin / optimal_sfs_
     evaluated at the exact rational arguments the model asks for (`lik_prep`).
 L3: the property statement evaluated directly on the real code with numpy/scipy (Poisson log-pmf over the jointly
     unmasked entries, theta = sum(data)/sum(model) over them, maximality over theta, scale invariance, Gibbs, auto-fold,
-    residual sign and masks, inputs untouched)."""
+    residual sign and masks, inputs untouched).
+Round 4: K also for `Spectrum.fold` itself (model's hand-written fold and the C09 fold model, op `lik_fold`), for the mask rule of
+    every primitive of the masked-cell algebra on numpy (`lik_cellop`: numpy.ma.log/sqrt/power, Spectrum **, gammaln) and for the generated
+    zero-masking facts (`lik_flags`); L3 folds with an oracle written from the closed form (never calls Spectrum.fold), checks the
+    closed form of ll_multinom over the joint set, the total of the folded model over the joint set from the unfolded model
+    (C11_fold_joint_total) and theta(model, data.fold()) == theta(model, data) for symmetric joint masks (C11_fold_theta_consistent)."""
 import math, itertools
 from fractions import Fraction
 import numpy as np
@@ -14,7 +19,7 @@ from . import common, gen
 from .common import rat, fmt_list, close
 
 PROP = 'C11'
-GENERATED = ['Likelihood']
+GENERATED = ['Likelihood', 'Fold']      # Fold: the C09 fold programs the auto-fold is proved equal to (Lemmas/LikFold.lean)
 NEEDS_BUILD = False
 NEEDS_DRIVER = True
 DRIVER_MODULES = ['Likelihood']
@@ -238,6 +243,14 @@ def poisson_terms(m, d):
         fin = np.isfinite(ref)
         if np.any(fin) and not np.allclose(t[isint][fin], ref[fin], rtol=1e-9, atol=1e-9):
             raise AssertionError('oracle self-check: formula vs scipy.stats.poisson.logpmf')
+    if np.any(~isint & (d > -1)):
+        # non-integer (projected) data: e^-m m^d / Gamma(d+1) is the Gamma(shape d+1, scale 1) density at m  (C11_poisson_logpmf_real)
+        from scipy.stats import gamma as gdist
+        sel = ~isint & (d > -1)
+        ref = gdist.logpdf(m[sel], d[sel] + 1.)
+        fin = np.isfinite(ref)
+        if np.any(fin) and not np.allclose(t[sel][fin], ref[fin], rtol=1e-8, atol=1e-8):
+            raise AssertionError('oracle self-check: formula vs log of the Gamma density (real-valued data)')
     return t
 
 def oracle_ll(M, D):
@@ -255,6 +268,21 @@ def oracle_theta(M, D):
         return None, j
     sm = mv[j].sum()
     return (dv[j].sum() / sm if sm != 0 else float('nan')), j
+
+def rev_all(a):
+    return a[tuple(slice(None, None, -1) for _ in a.shape)]
+
+def fold_geometry(shape):
+    tot = np.indices(shape).sum(axis=0); T = sum(int(x) - 1 for x in shape)
+    corner = np.zeros(shape, bool); corner.flat[0] = True; corner.flat[-1] = True
+    return 2 * tot > T, 2 * tot == T, corner
+
+def fold_oracle(mv, mm):
+    """Spectrum.fold from its closed form (C09_fold_pair / C09_fold_mask = second half of C11_autofold_value); numpy only"""
+    fo, amb, corner = fold_geometry(mv.shape)
+    pair = mv + rev_all(mv)
+    v = np.where(fo, 0.0, np.where(amb, pair / 2., pair))
+    return v, (mm | rev_all(mm) | fo | corner)
 
 def corner_class(M, D):
     """inputs on which intersect_masks' constructor call changes the joint mask: a corner visible in both, masks differ"""
@@ -278,7 +306,16 @@ def l3_case(chk, ctx, c, rng):
     # --- auto-fold: every entry point gives, for an unfolded model against folded data, what the folded model gives
     M = M0
     if D.folded and not M0.folded:
-        M = M0.fold()
+        # the folded model from the closed form, NOT from Spectrum.fold: every oracle below is then independent of the fold code
+        fv, fm = fold_oracle(*arrs(M0))
+        M = mk_spec(dadi, fv, fm, True)
+        Mr, e = call(M0.fold)
+        chk.l3(('fold-value', M0.ndim, bool(np.any(fold_geometry(M0.shape)[1]))))
+        if e is not None:
+            _fail(chk, 'autofold:fold:raises', 'model.fold() raises %r' % (e,), inp)
+        elif not (np.array_equal(np.ma.getmaskarray(Mr), fm) and np.allclose(np.asarray(Mr.data), fv, rtol=1e-12, atol=0) and Mr.folded):
+            _fail(chk, 'autofold:fold-value', 'model.fold() is not: 0 / half the pair sum / pair sum on folded-out / ambiguous / kept entries, '
+                  'mask = own | mirror | folded-out | corners', inp)
     if not (~np.ma.getmaskarray(M) & ~np.ma.getmaskarray(D)).any():
         # nothing is visible in both: ll must be masked / 0, everything else is degenerate
         got, e = call(I.ll, M0, D)
@@ -368,6 +405,16 @@ def l3_case(chk, ctx, c, rng):
             if worst is not None:
                 _fail(chk, 'll_multinom:not-max' + tag, 'll_multinom(model, data) = %r but ll(%g*theta_opt*model, data) exceeds/differs by %.3g '
                          '(theta_opt = sum(data)/sum(model) over the joint set)' % (lm, worst[0], worst[1]), inp)
+            # closed form over the JOINTLY unmasked entries (C11_multinom_closed_form)
+            l0, e0 = call(I.ll, M, D)
+            chk.l3(key + ('closed_form',))
+            if e0 is None and l0 is not np.ma.masked:
+                sD = float(dv[joint].sum()); sM = float(mv[joint].sum())
+                cf = float(l0) + sD * math.log(th_want) - (th_want - 1.0) * sM
+                tol = 1e-9 * (mag + abs(lm) + abs(float(l0)) + abs(sD * math.log(th_want)) + abs(th_want - 1.0) * sM + 1.0)
+                if abs(cf - lm) > tol:
+                    _fail(chk, 'll_multinom:closed-form' + tag, 'll_multinom = %r but ll + sum(data)*log(theta) - (theta-1)*sum(model) over the '
+                          'jointly unmasked entries = %r' % (lm, cf), inp)
             cfac = float(np.exp(rng.uniform(-3, 3)))
             lm2, e3 = call(I.ll_multinom, cfac * M, D)
             chk.l3(key + ('scale_inv',))
@@ -427,6 +474,141 @@ def l3_case(chk, ctx, c, rng):
         _fail(chk, 'inputs-modified', 'a likelihood/residual function changed the values or the mask of its arguments', inp)
     chk.stat('l3:pos_ok=%s' % pos_ok); chk.stat('l3:corner_class=%s' % corner)
 
+
+# ------------------------------------------------------------------ Round 4: fold, primitives, totals under folding
+def k_fold(chk, ctx, M, inp):
+    """Spectrum.fold on the real code vs the model's two folds (hand-written Lik.foldSpec, and the C09 model through toC09/ofC09)"""
+    drv = ctx['driver']
+    if drv is None or not drv.ok() or M.folded:
+        return
+    out = drv.ask('lik_fold ' + spec_tokens(M))
+    r, e = call(M.fold)
+    if not out.startswith('ok '):
+        chk.k_bad('fold', inp, repr(e) if e is not None else 'returned', out, None); return
+    if e is not None:
+        chk.k_bad('fold', inp, repr(e), out[:200], None); return
+    t = out[3:].split(' ')
+    iv = np.asarray(r.data, dtype=float).ravel(); im = np.ma.getmaskarray(r).ravel()
+    for name, (vals, bits, fl) in (('fold:lik', t[0:3]), ('fold:c09', t[3:6])):
+        mv_ = np.array([float(x) for x in common.parse_list(vals)]); mb = np.array([b == '1' for b in bits], dtype=bool)
+        if mv_.size != iv.size or not np.array_equal(mb, im):
+            chk.k_bad(name, inp, common.jsonable(im.astype(int)), bits, 'mask differs'); continue
+        ok, err, scale = close(iv, mv_, rtol=1e-12)
+        if not ok:
+            chk.k_bad(name, inp, common.jsonable(iv), vals[:300], 'values differ by %.3g' % err); continue
+        if (fl == '1') != bool(r.folded):
+            chk.k_bad(name, inp, bool(r.folded), fl, 'folded flag'); continue
+        chk.k_ok(name)
+
+CELL_PROBE = [-2.0, -0.5, -0.0, 0.0, 1e-9, 0.25, 1.0, 7.0]
+def k_cellops(chk, ctx, rng, exps, n):
+    """the mask rule of each primitive of the masked-cell algebra (Model/LikCell.lean, hand-written) vs numpy on a dadi.Spectrum"""
+    drv = ctx['driver']; dadi = ctx['dadi']
+    if drv is None or not drv.ok():
+        return
+    from scipy.special import gammaln as g
+    es = sorted(set([float(e) for e in exps] + [-1. / 3, 2. / 3, 1. / 6, -2.5, 0.5, -0.25]))     # fractional only (the rule's domain)
+    fr = {float(e): Fraction(e).limit_denominator(1000) for e in es}
+    for it in range(n):
+        k = int(rng.integers(3, 9))
+        vals = [float(rng.choice(CELL_PROBE)) for _ in range(k)]
+        mask = [bool(rng.random() < 0.25) for _ in range(k)]
+        S = mk_spec(dadi, vals, mask)
+        ops = [('log', lambda: np.ma.log(S)), ('log', lambda: S.log()), ('sqrt', lambda: np.ma.sqrt(S)), ('gammaln1', lambda: g(S + 1.))]
+        e = float(rng.choice(es))
+        tag = '%d/%d' % (fr[e].numerator, fr[e].denominator)
+        ops += [('mapow:' + tag, lambda: np.ma.power(S, e)), ('spow:' + tag, lambda: S ** e)]
+        for op, f in ops:
+            r, exc = call(f)
+            out = drv.ask('lik_cellop %s %s %s' % (op, fmt_list(vals), ''.join('1' if b else '0' for b in mask)))
+            name = 'cellop:' + op.split(':')[0]
+            inp = dict(op=op, values=vals, mask=[int(b) for b in mask])
+            if exc is not None or not out.startswith('ok '):
+                chk.k_bad(name, inp, repr(exc), out, None); continue
+            im = ''.join('1' if b else '0' for b in np.ma.getmaskarray(r).ravel().tolist())
+            if im == out[3:]: chk.k_ok(name)
+            else: chk.k_bad(name, inp, im, out[3:], 'mask of the primitive differs')
+
+def k_flags(chk, ctx):
+    """generated facts `anscombeZeroMasked data/model` vs what the implementation does with an exact zero (mask=None)"""
+    drv = ctx['driver']; dadi = ctx['dadi']
+    if drv is None or not drv.ok():
+        return
+    out = drv.ask('lik_flags')
+    A = dadi.Inference.Anscombe_Poisson_residual
+    r1, e1 = call(A, mk_spec(dadi, [1., 1., 2., 1.], [1, 0, 0, 1]), mk_spec(dadi, [0., 0., 3., 0.], [1, 0, 0, 1]))
+    r2, e2 = call(A, mk_spec(dadi, [1., 0., 2., 1.], [1, 0, 0, 1]), mk_spec(dadi, [0., 2., 3., 0.], [1, 0, 0, 1]))
+    inp = dict(probe='Anscombe_Poisson_residual at an exact zero of data / of model, mask=None')
+    if e1 is not None or e2 is not None or not out.startswith('ok '):
+        chk.k_bad('flags', inp, repr((e1, e2)), out, None); return
+    impl = '%d %d' % (int(np.ma.getmaskarray(r1)[1]), int(np.ma.getmaskarray(r2)[1]))
+    if impl == out[3:]: chk.k_ok('flags')
+    else: chk.k_bad('flags', inp, impl, out[3:], 'zero of data/model masked: implementation vs generated fact')
+
+def gen_fold_pair(dadi, rng, tier, symmetric):
+    """unfolded model and data of one shape; joint mask mirror-symmetric with corners (symmetric=True) or arbitrary"""
+    nd = int(rng.choice([1, 2, 3], p=[0.4, 0.35, 0.25]))
+    lo, hi = (SHAPES_T if tier == 'thorough' else SHAPES_Q)[nd]
+    shape = tuple(int(rng.integers(lo, hi + 1)) for _ in range(nd))
+    tot = np.indices(shape).sum(axis=0)
+    mv = gen.coarse(rng.uniform(0.3, 3.0, shape) / (1.0 + tot) * float(np.exp(rng.uniform(-2, 3))), 24)
+    dv = rng.poisson(mv * float(np.exp(rng.uniform(0, 3)))).astype(float)
+    if rng.random() < 0.4:
+        dv = dv * rng.uniform(0.3, 1.0, shape)
+    dv = gen.coarse(dv, 24)
+    mm = rng.random(shape) < float(rng.choice([0.0, 0.1, 0.25])); dm = rng.random(shape) < float(rng.choice([0.0, 0.1, 0.25]))
+    for msk in (mm, dm):
+        msk.flat[0] = True; msk.flat[-1] = True
+    if symmetric:
+        # make the JOINT mask symmetric while the two masks stay different and individually asymmetric where possible
+        j = mm | dm
+        need = rev_all(j) & ~j
+        put_m = rng.random(shape) < 0.5
+        mm = mm | (need & put_m); dm = dm | (need & ~put_m)
+    return mk_spec(dadi, mv, mm), mk_spec(dadi, dv, dm)
+
+def l3_fold_totals(chk, ctx, rng, n):
+    """C11_fold_joint_total / C11_fold_theta_consistent on the real code: theta against folded data from the UNFOLDED model's entries"""
+    dadi = ctx['dadi']; I = dadi.Inference
+    for it in range(n):
+        symmetric = bool(rng.random() < 0.5)
+        Mu, Du = gen_fold_pair(dadi, rng, ctx['tier'], symmetric)
+        Df, e = call(Du.fold)
+        if e is not None:
+            _fail(chk, 'fold:raises', 'data.fold() raises %r' % (e,), small(dict(M=Mu, D=Du, kind='fold-totals'))); continue
+        fo, amb, corner = fold_geometry(Mu.shape)
+        extra = bool(rng.random() < 0.5)
+        if extra:
+            # mask further entries of the folded data (singletons ...), the two members of an ambiguous pair alike
+            x = (rng.random(Mu.shape) < 0.2) & ~fo
+            x = x | (rev_all(x) & amb)
+            Df = mk_spec(dadi, np.asarray(Df.data), np.ma.getmaskarray(Df) | x, True)
+        inp = small(dict(M=Mu, D=Df, kind='fold-totals'))
+        mv, mm = arrs(Mu); dfv, dfm = arrs(Df)
+        # the mask of the folded model and the image of every unfolded entry, from the statement (no call to fold)
+        fmask = mm | rev_all(mm) | fo | corner
+        J = ~fmask & ~dfm
+        img_masked = np.where(fo, rev_all(dfm), dfm)                      # D's mask at foldImage(k)
+        u = ~(mm | rev_all(mm) | corner | img_masked)
+        chk.l3(('fold-joint-total', Mu.ndim, symmetric, extra, bool(amb.any())))
+        if not J.any() or mv[u].sum() == 0:
+            chk.stat('l3:fold-totals:degenerate'); continue
+        th, e = call(I.optimal_sfs_scaling, Mu, Df)
+        want = float(dfv[J].sum()) / float(mv[u].sum())
+        if e is not None or th is np.ma.masked or not near(float(th), want, 1e-12 * abs(want), 1e-9):
+            _fail(chk, 'fold:joint-total', 'optimal_sfs_scaling(model, folded data) = %r; sum(data over the joint set) / (total of the UNFOLDED '
+                  'model over the entries visible with their mirror, no corner, image visible in the data) = %r' % (th, want), inp)
+        if symmetric and not extra:
+            du, dmk = arrs(Du)
+            ju = ~mm & ~dmk
+            chk.l3(('fold-theta-consistent', Mu.ndim, bool(amb.any())))
+            if ju.any() and mv[ju].sum() != 0:
+                thu, e2 = call(I.optimal_sfs_scaling, Mu, Du)
+                wantu = float(du[ju].sum()) / float(mv[ju].sum())
+                if e2 is not None or thu is np.ma.masked or e is not None or th is np.ma.masked or \
+                        not near(float(thu), float(th), 0.0, 1e-9) or not near(float(thu), wantu, 0.0, 1e-9):
+                    _fail(chk, 'fold:theta-consistent', 'joint mask mirror-symmetric with corners: optimal_sfs_scaling(model, data.fold()) = %r '
+                          'but optimal_sfs_scaling(model, data) = %r (sum ratio %r)' % (th, thu, wantu), inp)
 
 # ------------------------------------------------------------------ history-aware cases (state carried between calls)
 # The property is about the CURRENT contents of the two spectra at every call.  A sequence re-uses the same model / data
@@ -714,6 +896,8 @@ def run_case(chk, ctx, c, rng, exps):
     chk.stat('resid_mask:' + ('None' if c.get('mk') is None else ('0' if c['mk'] == 0 else 'positive')))
     l3_case(chk, ctx, c, rng)
     k_case(chk, ctx, c, exps)
+    if not c['M'].folded and rng.random() < 0.5:
+        k_fold(chk, ctx, c['M'], small(c))
     chk.sample(dict(kind=c['kind'], shape=list(c['M'].shape), model_masked=int(np.ma.getmaskarray(c['M']).sum()),
                     data_masked=int(np.ma.getmaskarray(c['D']).sum()), data_folded=bool(c['D'].folded), resid_mask=c.get('mk')))
 
@@ -765,7 +949,9 @@ def run(chk, ctx):
     chk.unproved = [
         'log, gammaln, sqrt and the fractional powers enter the model as tables of numbers computed by libm/scipy at the exact rational arguments: '
         'that numpy\'s log/gammaln/power are the real functions (to 1e-9) is validated numerically, not proved',
-        'Spectrum.fold (used by the auto-fold) is modelled by hand on the flat array and tied by correspondence only (its own properties belong to C09)',
+        'the n-D -> flat (C-order) layout of numpy arrays and numpy.ma reductions are tied by correspondence only; Spectrum.fold is now proved equal to '
+        'the C09 fold model (generated from the source) for rational-valued spectra and its real instance is the image of the rational one',
+        'the mask rules of numpy.ma.log / sqrt / power, Spectrum ** and gammaln (Model/LikCell.lean) are hand-written and tied to numpy by correspondence (lik_cellop)',
         'IEEE round-off: agreement of the float implementation with the exact model at 1e-9 is numerical',
         'gammaln(k+1) = log k! is proved for the real Gamma function, the implementation\'s scipy gammaln is compared numerically (L3 cross-check with scipy.stats.poisson.logpmf)',
     ]
@@ -778,6 +964,14 @@ def run(chk, ctx):
     for it in range(n):
         c = gen_case(dadi, rng, tier)
         run_case(chk, ctx, c, rng, exps)
+    # Round 4: primitives of the cell algebra on numpy, generated zero facts, totals under folding
+    xrng = common.Rng(ctx['seed'], 'C11/round4')
+    k_flags(chk, ctx)
+    k_cellops(chk, ctx, xrng, exps, 40 if tier == 'quick' else 600)
+    for c in fixed_cases(dadi):
+        if not c['M'].folded:
+            k_fold(chk, ctx, c['M'], small(c))
+    l3_fold_totals(chk, ctx, xrng, 60 if tier == 'quick' else 1500)
     # state carried between calls: sequences on the same objects with in-place edits
     hrng = common.Rng(ctx['seed'], 'C11/history')
     for seq in fixed_histories():
